@@ -64,7 +64,91 @@ TWINS = [
     ('pow-matrix-power-inplace', 'C17', 'super_pose.py', 'return self.__class__([np.linalg.matrix_power(x, n) for x in self.data], check=False)', 'out = []\n        for x in self.data:\n            T = np.linalg.matrix_power(x, n)\n            T[0, 0] = T[0, 0]\n            out.append(T)\n        return self.__class__(out, check=False)', 'R9', '__pow__'),
     ('mul-iadd-alias', 'C17', 'super_pose.py', '        return left.__mul__(right)\n\n    def __truediv__', '        left.data[0] = left.data[0] @ right.A\n        return left\n\n    def __truediv__', 'R9', '__imul__'),
     ('rand-in-pure', 'C17', 'base/vectors.py', '    v = getvector(v)\n    n = norm(v)\n', '    v = getvector(v) + 0 * np.random.rand()\n    n = norm(v)\n', 'R9d', 'unitvec'),
+    # ---- C01
+    ('rotx-sign', 'C01', 'base/transforms3d.py', "        [0, ct, -st],\n        [0, st, ct]])", "        [0, ct, st],\n        [0, st, ct]])", 'R16', 'rotx'),
+    ('oa2r-rows', 'C01', 'base/transforms3d.py', "    o = np.cross(a, n)\n    R = np.stack((base.unitvec(n), base.unitvec(o), base.unitvec(a)), axis=1)\n    return R", "    o = np.cross(a, n)\n    R = np.stack((base.unitvec(n), base.unitvec(o), base.unitvec(a)), axis=0)\n    return R", 'R16', 'oa2r'),
+    ('angvec2r-rawaxis', 'C01', 'base/transforms3d.py', 'sk = base.skew(base.unitvec(v))', 'sk = base.skew(base.getvector(v))', 'R16', 'angvec2r'),
+    ('so3-inv-elementwise', 'C01', 'pose3d.py', 'return SO3(self.A.T, check=False)', 'return SO3(2 * np.eye(3) - self.A, check=False)', 'R15c', 'SO3.inv'),
+    ('trexp-V-term', 'C01', 'base/transforms3d.py', 'V = np.eye(3) * theta + (1.0 - math.cos(theta)) * skw + (theta - math.sin(theta)) * skw @ skw', 'V = np.eye(3) * theta + (1.0 - math.cos(theta)) * skw + (theta + math.sin(theta)) * skw @ skw', 'R16', 'trexp'),
+    ('uq-ctor-nonorm', 'C01', 'quaternion.py', '                q = base.unit(q)\n            self.data = [q]', '                pass\n            self.data = [q]', 'R13', 'UnitQuaternion.__init__'),
+    ('rpy2r-swap', 'C01', 'base/transforms3d.py', 'R = rotz(angles[2]) @ roty(angles[1]) @ rotx(angles[0])', 'R = rotx(angles[2]) @ roty(angles[1]) @ rotz(angles[0])', 'R12', 'rpy2r'),
+    # ---- C02
+    ('mul-reversed', 'C02', 'super_pose.py', 'return left.__class__(left._op2(right, lambda x, y: x @ y), check=False)', 'return left.__class__(left._op2(right, lambda x, y: y @ x), check=False)', 'R15', '__mul__'),
+    ('truediv-noinv', 'C02', 'super_pose.py', 'return left.__class__(left._op2(right.inv(), lambda x, y: x @ y), check=False)', 'return left.__class__(left._op2(right, lambda x, y: x @ y), check=False)', 'R15', '__truediv__'),
+    ('trinv-sign', 'C02', 'base/transforms3d.py', '    Ti[:3, 3] = -R.T @ t', '    Ti[:3, 3] = R.T @ t', 'R16', 'trinv'),
+    ('trinv2-notranspose', 'C02', 'base/transforms2d.py', '    Ti[:2, 2] = -R.T @ t', '    Ti[:2, 2] = -R @ t', 'R16', 'trinv2'),
+    ('qqmul-cross-swapped', 'C02', 'base/quaternions.py', 's1 * v2 + s2 * v1 + np.cross(v1, v2)]', 's1 * v2 + s2 * v1 + np.cross(v2, v1)]', 'R16', 'qqmul'),
+    ('prod-reversed', 'C02', 'super_pose.py', '            Tprod = Tprod @ T', '            Tprod = T @ Tprod', 'R15', 'prod'),
+    ('qpow-noconj', 'C02', 'base/quaternions.py', '    if power < 0:\n        qr = conj(qr)\n', '', 'R15', 'qpow'),
+    ('uq-div-conj-left', 'C02', 'quaternion.py', 'lambda x, y: base.qqmul(x, base.conj(y))', 'lambda x, y: base.qqmul(base.conj(x), y)', 'R15', '__truediv__'),
+    # ---- C04
+    ('se3-ry-drop-unit', 'C04', 'pose3d.py', 'return cls([base.troty(x, t=t, unit=unit) for x in base.getvector(theta)], check=False)', 'return cls([base.troty(x, t=t) for x in base.getvector(theta)], check=False)', 'R13', 'SE3.Ry'),
+    ('uq-ry-slot', 'C04', 'quaternion.py', 'return cls([np.r_[math.cos(a / 2), 0, math.sin(a / 2), 0] for a in angles], check=False)', 'return cls([np.r_[math.cos(a / 2), 0, 0, math.sin(a / 2)] for a in angles], check=False)', 'R13', 'UnitQuaternion.Ry'),
+    ('uq-eq-no-unitq', 'C04', 'quaternion.py', 'return left.binop(right, lambda x, y: base.isequal(x, y, unitq=True), list1=False)', 'return left.binop(right, lambda x, y: base.isequal(x, y), list1=False)', 'R13', 'UnitQuaternion.__eq__'),
+    ('isequal-no-neg', 'C04', 'base/quaternions.py', 'return (np.sum(np.abs(q1 - q2)) < tol * _eps) or (np.sum(np.abs(q1 + q2)) < tol * _eps)', 'return np.sum(np.abs(q1 - q2)) < tol * _eps', 'R13', 'isequal'),
+    ('udq-dual-order', 'C04', 'DualQuaternion.py', '            self.dual = 0.5 * D * S', '            self.dual = 0.5 * S * D', 'R13', 'UnitDualQuaternion.__init__'),
+    ('uq-rpy-drop-order', 'C04', 'quaternion.py', 'return cls(base.r2q(base.rpy2r(angles, unit=unit, order=order)), check=False)', 'return cls(base.r2q(base.rpy2r(angles, unit=unit)), check=False)', 'R13', 'UnitQuaternion.RPY'),
+    ('trlog-diag-only', 'C04', 'base/transforms3d.py', '            col = R[:, k] + I[:, k]\n            w = col / np.sqrt(2 * (1 + mx))', '            w = np.sqrt((R.diagonal() + 1) / 2)', 'R17', 'trlog'),
+    # ---- C05
+    ('eul2r-order', 'C05', 'base/transforms3d.py', 'return rotz(angles[0]) @ roty(angles[1]) @ rotz(angles[2])', 'return rotz(angles[2]) @ roty(angles[1]) @ rotz(angles[0])', 'R12', 'eul2r'),
+    ('tr2eul-singular', 'C05', 'base/transforms3d.py', "        eul[0] = 0\n        sp = 0\n        cp = 1\n", "        eul[0] = 0\n        sp = 1\n        cp = 0\n", 'R16', 'tr2eul'),
+    ('tr2rpy-nodeg', 'C05', 'base/transforms3d.py', "    if unit == 'deg':\n        rpy *= 180 / math.pi\n\n    return rpy", '    return rpy', 'R10x', 'tr2rpy'),
+    ('so3-eul-branch-flip', 'C05', 'pose3d.py', 'return np.array([base.tr2eul(x, unit=unit, flip=flip) for x in self.A]).T', 'return np.array([base.tr2eul(x, unit=unit) for x in self.A]).T', 'R8', 'SO3.eul'),
+    ('tr2rpy-order-alias', 'C05', 'base/transforms3d.py', "    elif order == 'yxz' or order == 'camera':\n\n        if abs(abs(R[1, 2]) - 1) < 10 * _eps:", "    elif order == 'yxz':\n\n        if abs(abs(R[1, 2]) - 1) < 10 * _eps:", 'R10o', 'rpy2r/tr2rpy'),
+    # ---- C06
+    ('mul-right-T', 'C06', 'super_pose.py', "            #print('*: pose x array')\n            if len(left) == 1 and base.isvector(right, left.N):", "            #print('*: pose x array')\n            if isinstance(right, np.ndarray) and right.ndim == 2 and right.shape[1] == left.N:\n                right = right.T\n            if len(left) == 1 and base.isvector(right, left.N):", 'R16', '__mul__'),
+    ('homtrans-noh2e', 'C06', 'base/transformsNd.py', '    return h2e( T @ p )', '    return T @ p', 'R16', 'homtrans'),
+    ('qvmul-conj-side', 'C06', 'base/quaternions.py', 'qv = qqmul(q, qqmul(pure(v), conj(q)))', 'qv = qqmul(conj(q), qqmul(pure(v), q))', 'R16', 'qvmul'),
+    # ---- C11
+    ('trinterp-norange', 'C11', 'base/transforms3d.py', '    if not 0 <= s <= 1: \n        raise ValueError("s outside interval [0,1]")\n', '', 'R14', 'trinterp'),
+    ('trinterp-swap', 'C11', 'base/transforms3d.py', '            qr = base.slerp(q0, q1, s)\n            pr = p0 * (1 - s) + s * p1', '            qr = base.slerp(q1, q0, s)\n            pr = p0 * (1 - s) + s * p1', 'R14', 'trinterp'),
+    ('slerp-flip-q-only', 'C11', 'base/quaternions.py', '            q0 = -q0   # pylint: disable=invalid-unary-operand-type\n            dotprod = -dotprod # pylint: disable=invalid-unary-operand-type', '            q0 = -q0   # pylint: disable=invalid-unary-operand-type', 'R14', 'slerp'),
+    ('slerp-lerp', 'C11', 'base/quaternions.py', '        return ((q0 * s0) + (q1 * s1)) / math.sin(theta)', '        return q0 * (1 - s) + q1 * s', 'R14', 'slerp'),
+    ('trinterp2-angle', 'C11', 'base/transforms2d.py', '            pr = p0 * (1 - s) + s * p1\n            th = th0 * (1 - s) + s * th1', '            pr = p0 * (1 - s) + s * p1\n            th = th0 * s + (1 - s) * th1', 'R14', 'trinterp2'),
+    ('interp-route', 'C11', 'super_pose.py', 'return self.__class__([base.trinterp(start, x, s=s[0]) for x in self.data])', 'return self.__class__([base.trinterp(start, self.A, s=s[0]) for x in self.data])', 'R8', 'interp'),
+    # ---- C12
+    ('matrix-sign', 'C12', 'base/quaternions.py', '                     [x, s, -z, y],', '                     [x, s, z, y],', 'R16', 'matrix'),
+    ('conj-scalar', 'C12', 'base/quaternions.py', '    return np.r_[q[0], -q[1:4]]', '    return np.r_[-q[0], q[1:4]]', 'R16', 'conj'),
+    ('dotb-sign', 'C12', 'base/quaternions.py', '    E = q[0] * (np.eye(3, 3)) + base.skew(q[1:4])', '    E = q[0] * (np.eye(3, 3)) - base.skew(q[1:4])', 'R16', 'dotb'),
+    ('dq-mul-order', 'C12', 'DualQuaternion.py', 'dual = left.real * right.dual + left.dual * right.real', 'dual = left.real * right.dual + right.real * left.dual', 'R16', 'DualQuaternion.__mul__'),
+    ('q2r-entry', 'C12', 'base/quaternions.py', '[2 * (x * y + s * z), 1 - 2 * (x ** 2 + z ** 2), 2 * (y * z - s * x)],', '[2 * (x * y + s * z), 1 - 2 * (x ** 2 + z ** 2), 2 * (y * z + s * x)],', 'R16', 'q2r'),
+    ('qpow-range', 'C12', 'base/quaternions.py', '    for _ in range(0, abs(power)):', '    for _ in range(1, abs(power)):', 'R15', 'qpow'),
+    # ---- C13
+    ('skew-sign', 'C13', 'base/transformsNd.py', '                [ v[2],  0,    -v[0] ],', '                [ v[2],  0,     v[0] ],', 'R16', 'skew'),
+    ('vex-entry', 'C13', 'base/transformsNd.py', 'return np.array([s[2, 1] - s[1, 2], s[0, 2] - s[2, 0], s[1, 0] - s[0, 1]]) / 2', 'return np.array([s[2, 1] - s[1, 2], s[2, 0] - s[0, 2], s[1, 0] - s[0, 1]]) / 2', 'R16', 'vex'),
+    ('adjoint-block', 'C13', 'base/transforms3d.py', '                [R, base.skew(t) @ R], \n                [Z, R]', '                [R, R @ base.skew(t)], \n                [Z, R]', 'R16', 'adjoint'),
+    ('tr2delta-order', 'C13', 'base/transforms3d.py', '        Td = trinv(T0) @ T1', '        Td = T1 @ trinv(T0)', 'R16', 'tr2delta'),
+    ('skewa-slot', 'C13', 'base/transformsNd.py', '        omega[:3, 3] = v[0:3]', '        omega[:3, 3] = v[3:6]', 'R16', 'skewa'),
+    ('cross-entry', 'C13', 'base/vectors.py', '        u[2] * v[0] - u[0] * v[2],', '        u[0] * v[2] - u[2] * v[0],', 'R16', 'cross'),
+    ('tr2jac-notranspose', 'C13', 'base/transforms3d.py', '        return np.block([[R.T, Z], [Z, R.T]])', '        return np.block([[R, Z], [Z, R]])', 'R16', 'tr2jac'),
+    # ---- C14
+    ('trnorm-axis', 'C14', 'base/transforms3d.py', "    o = np.cross(a, n)        # (a)];\n    R = np.stack((base.unitvec(n), base.unitvec(o), base.unitvec(a)), axis=1)", "    o = np.cross(a, n)        # (a)];\n    R = np.stack((base.unitvec(n), base.unitvec(o), base.unitvec(a)), axis=0)", 'R16', 'trnorm'),
+    ('trnorm-lose-t', 'C14', 'base/transforms3d.py', '        return base.rt2tr(R, T[:3, 3])\n    else:\n        return R', '        return base.rt2tr(R, T[:3, 2])\n    else:\n        return R', 'R16', 'trnorm'),
+    ('unittwist-selector', 'C14', 'base/vectors.py', "    v = S[0:3]\n    w = S[3:6]\n\n    if iszerovec(w):\n        th = norm(v)\n    else:\n        th = norm(w)\n\n    return S / th", "    v = S[0:3]\n    w = S[3:6]\n\n    if iszerovec(v):\n        th = norm(v)\n    else:\n        th = norm(w)\n\n    return S / th", 'R16', 'unittwist'),
+    ('angdiff-shift', 'C14', 'base/vectors.py', '        return np.mod(a - b + math.pi, 2 * math.pi) - math.pi', '        return np.mod(a - b, 2 * math.pi) - math.pi', 'R16', 'angdiff'),
+    ('unit-wrong-norm', 'C14', 'base/quaternions.py', '    return q / nm', '    return q / (nm * nm)', 'R16', 'unit'),
+    # ---- C18
+    ('revolute-sign', 'C18', 'twist.py', '        v = -np.cross(w, base.getvector(q, 3))', '        v = np.cross(w, base.getvector(q, 3))', 'R16', 'Revolute'),
+    ('exp-nounit', 'C18', 'twist.py', "        else:\n            theta = base.getunit(theta, units)\n\n        if base.isscalar(theta):\n            # theta is a scalar\n            return SE3(base.trexp(self.S * theta))", "        elif base.isscalar(theta):\n            theta = base.getunit(theta, units)\n\n        if base.isscalar(theta):\n            # theta is a scalar\n            return SE3(base.trexp(self.S * theta))", 'R10u', 'Twist3.exp'),
+    ('pitch-slots', 'C18', 'twist.py', '        return np.dot(self.w, self.v)', '        return np.dot(self.w, self.w)', 'R16', 'pitch'),
+    ('twist-w-slot', 'C18', 'twist.py', '        return self.data[0][3:6]', '        return self.data[0][2:5]', 'R16', 'Twist3.w'),
+    ('prismatic-nounit', 'C18', 'twist.py', "        w = np.r_[0, 0, 0]\n        v = base.unitvec(base.getvector(a, 3))", "        w = np.r_[0, 0, 0]\n        v = base.getvector(a, 3)", 'R16', 'Prismatic'),
+    # ---- C19
+    ('pq-moment', 'C19', 'geom3d.py', '        v = np.cross(P - Q, P)', '        v = np.cross(P, P - Q)', 'R16', 'PQ'),
+    ('contains-sign', 'C19', 'geom3d.py', 'return abs(np.dot(self.n, p) + self.d) < tol', 'return abs(np.dot(self.n, p) - self.d) < tol', 'R16', 'Plane.contains'),
+    ('isparallel-sense', 'C19', 'geom3d.py', 'return np.linalg.norm(np.cross(l1.w, l2.w) ) < tol', 'return abs(1 - np.dot(l1.uw, l2.uw)) < tol', 'R16s', 'isparallel'),
+    ('pp-order', 'C19', 'geom3d.py', 'return np.cross(self.v, self.w) / np.dot(self.w, self.w)', 'return np.cross(self.w, self.v) / np.dot(self.w, self.w)', 'R16', 'Plucker.pp'),
+    ('rmul-block', 'C19', 'geom3d.py', 'A = np.r_[ np.c_[left.R,          base.skew(-left.t) @ left.R],', 'A = np.r_[ np.c_[left.R,          base.skew(left.t) @ left.R],', 'R16', '__rmul__'),
+    ('planes-v', 'C19', 'geom3d.py', '        v = pi2.d * pi1.n - pi1.d * pi2.n', '        v = pi1.d * pi1.n - pi2.d * pi2.n', 'R16', 'Planes'),
+    # ---- C20
+    ('vcross-entry', 'C20', 'spatialvector.py', '[ 0,     0,     0,      v[5],   0,    -v[3]   ],', '[ 0,     0,     0,      v[5],   0,     v[3]   ],', 'R16', 'cross'),
+    ('force-notranspose', 'C20', 'spatialvector.py', 'return SpatialForce(-vcross.T @ other.A)', 'return SpatialForce(-vcross @ other.A)', 'R16', 'cross'),
+    ('rmul-force-ad', 'C20', 'spatialvector.py', '                return right.__class__(X.T @ right.A)', '                return right.__class__(X @ right.A)', 'R16', '__rmul__'),
+    ('inertia-block', 'C20', 'spatialvector.py', '                    [m * C,         I + m * C @ C.T]', '                    [m * C,         I + m * C @ C]', 'R16', 'SpatialInertia.__init__'),
+    ('sv-add-noguard', 'C20', 'spatialvector.py', "        if type(left) != type(right):\n            raise TypeError('can only add spatial vectors of same type')\n        if len(left) != len(right):\n            raise ValueError('can only add equal length arrays of spatial vectors')\n\n        return left.__class__([x + y for x, y in zip(left.data, right.data)])", "        if len(left) != len(right):\n            raise ValueError('can only add equal length arrays of spatial vectors')\n\n        return left.__class__([x + y for x, y in zip(left.data, right.data)])", 'R16', '__add__'),
+    ('sv-ctor-asarray', 'C20', 'spatialvector.py', '        elif base.ismatrix(value, (6, None)):\n            self.data = [x for x in value.T]', '        elif base.ismatrix(np.asarray(value), (6, None)):\n            self.data = [x for x in np.asarray(value).T]', 'R16', 'SpatialVector.__init__'),
 ]
+
 
 
 def _run_twin(tw, base_root):
